@@ -197,8 +197,9 @@ fn test(c: &Case) -> TestResult {
     drop(req);
     // the log: management replies (prefix of what is owed) and our 3-byte stdout records, intact
     let w = world.lock().unwrap();
-    let (recs_out, used) = wire::decode_log(&w.log).map_err(|e| Fail::new("conn-log-malformed", e))?;
-    vensure!(used == w.log.len(), "conn-partial-record", "log ends with an incomplete record");
+    // (a reply whose flush was still in progress when the last operation returned or was
+    // cancelled may be cut off: the caller dropped the request)
+    let (recs_out, _used) = wire::decode_log(&w.log).map_err(|e| Fail::new("conn-log-malformed", e))?;
     let mut mgmt = Vec::new();
     let mut stdout_recs = 0;
     for r in &recs_out {
@@ -304,8 +305,8 @@ pub fn property() -> Property {
         subs: vec![prop_sub(
             "reads",
             "requests of all roles with generated stream contents and management records mid-stream x sequences of poll_read(len 0..n) / poll_fill_buf+consume(k) / set_stream(next) / writeable() (to completion or cancelled after k polls) / output_stream+write x reader scripts (1..n bytes, Pending) x writer scripts (1..n bytes, Pending); delivered bytes must equal the active stream's content in order, end-of-file only at the true end and persistent, nothing from other streams, writeable gate, log intact; non-trivial = direct and buffered reads mixed with >=1 not-ready result from the reader (and from the writer when replies were flushed); distinct = hash of the case",
-            3_000,
-            120_000,
+            30_000,
+            800_000,
             |_| case_strategy(),
             test,
         )],
